@@ -293,6 +293,8 @@ def how_to_call(fi, con):
         names = [x.arg for x in a.posonlyargs + a.args]
         kw = {x.arg: args[x.arg] for x in a.kwonlyargs if x.arg in args}
         star = list(args[a.vararg.arg]) if a.vararg is not None and a.vararg.arg in args else []
+        if a.kwarg is not None and isinstance(args.get(a.kwarg.arg), dict):
+            kw.update(args[a.kwarg.arg])          # **kwargs given as a display of known keys
         if fi.cls is not None and "staticmethod" not in fi.decorators:
             self_obj = args[names[0]]
             rest = [args[n] for n in names[1:]] + star
@@ -661,10 +663,12 @@ def run_real(E, con, fi, bound, model, heap0, ctx):
     for name, sv in bound.items():
         if isinstance(sv, SV):
             args[name] = conc.value(sv.t, sv.ty)
-        elif _display_type(sv) is not None:
-            args[name] = conc.py_of(sv)
         else:
-            raise NotConcretisable("parameter %s is an engine-level value %r" % (name, sv))
+            args[name] = conc.py_of(sv)           # a display with symbolic leaves (raises NotConcretisable for anything else)
+    # every object of the entry state lies below the allocation frontier; a model that puts one beyond it (through an unconstrained
+    # default of a heap array) would make it collide with the objects the run allocates - such a model is not a usable input
+    a0 = z3.simplify(model.eval(ctx.alloc0, model_completion=True))
+    beyond = z3.is_int_value(a0) and any(isinstance(oid, int) and oid >= a0.as_long() for oid in conc.objs if oid not in conc.blank and oid not in E.interned)
     pre = snapshot_objects(conc)
     del LOG[:]
     outcome = {"inputs": {k: _describe(v) for k, v in args.items()}, "inexact_floats": conc.inexact}
@@ -682,6 +686,7 @@ def run_real(E, con, fi, bound, model, heap0, ctx):
     outcome["post"] = snapshot_objects(conc)
     outcome["pre"] = pre
     outcome["conc"] = conc
+    outcome["entry_object_beyond_frontier"] = bool(beyond)
     outcome["nevents"] = len(LOG)
     outcome["stores"] = {oid: list(getattr(o, "_stores", [])) for oid, o in conc.objs.items()}
     return outcome
